@@ -84,6 +84,14 @@ pub struct Case {
 
 pub struct C05;
 
+/// restores full reads when a case ends (also on an early return)
+struct ResetCap;
+impl Drop for ResetCap {
+    fn drop(&mut self) {
+        crate::sink::set_read_cap(0);
+    }
+}
+
 const STEP: u32 = 10;
 
 fn build_bw(split: &[u32], offset: u32) -> BwInput {
@@ -299,6 +307,11 @@ impl Prop for C05 {
         obs.label(if c.kind == Kind::BigWig { "bigwig+zoom-index" } else { "bigbed-nonmonotone-ends" });
         obs.label_if(c.cached, "cached-reader");
         obs.label_if(c.offset > 0, "coordinates-beyond-2^31");
+        // a quarter of the cases read the file through a source that returns a few bytes per read()
+        let cap = match (n + c.b * 3) % 8 { 1 => 7usize, 5 => 16, _ => 0 };
+        crate::sink::set_read_cap(cap);
+        obs.label_if(cap > 0, "source-with-short-reads");
+        let _reset = ResetCap;
         let sink = SharedSink::new();
         let o = grid_opts(c.b, c.kind == Kind::BigWig);
         match c.kind {
